@@ -125,6 +125,13 @@ Theorem C15_hv_swap_adjacent : forall k ref pts, (S k < length ref)%nat ->
 Proof. exact hv_swap_at. Qed.
 Print Assumptions C15_hv_swap_adjacent.
 
+(* slicing on the LAST coordinate (hv_last, the usual description of HSO) gives the same value in every
+   dimension, for points of the dimension of the reference *)
+Theorem C15_hv_last_is_hv : forall ref pts,
+  Forall (fun p => length p = length ref) pts -> hv_last ref pts == hv ref pts.
+Proof. exact hv_last_is_hv. Qed.
+Print Assumptions C15_hv_last_is_hv.
+
 Theorem C15_hv_last_2obj : forall rx ry l,
   hv_last [rx; ry] (map (fun xy : Q * Q => [fst xy; snd xy]) l) == hv [rx; ry] (map (fun xy => [fst xy; snd xy]) l).
 Proof. exact hv_last_2d. Qed.
